@@ -558,7 +558,7 @@ func runWalk(spec *core.Spec, st *core.State, msgs []interface{}, ctl *core.Cont
 					lastTo = sd.To
 				}
 			}
-			if canon(lastTo) != canon(wo.GoTo) || canon(wo.emitted()) != canon(append([]interface{}{}, wo.GoEmitted...)) {
+			if canon(lastTo) != canon(wo.GoTo) || canon(append([]interface{}{}, wo.emitted()...)) != canon(append([]interface{}{}, wo.GoEmitted...)) {
 				wo.Accessors = false
 			}
 			if from := raw.From(); len(wo.Strides) > 0 && canon(obsState(from)) != canon(wo.Strides[0].From) || len(wo.Strides) == 0 && from != nil {
@@ -806,8 +806,10 @@ func walkComponent(g *G, n int, opts map[string]string) *Out {
 		} else if limit <= -2 {
 			lim = "(Some 0%nat)" // `for i := 0; i < c.Limit; i++` with a negative limit: as with 0
 		}
-		term := fmt.Sprintf("(mk_wcase %s %s %s %s %s %s %s %s %s %s)", as.coq(), st.coq(), coqList(ms), lim, bp.coq(), gor,
-			coqBool(r1.Intact && r2.Intact), coqBool(r1.Shared || r2.Shared), coqBool(r1.key() == r2.key()), coqBool(splitAgree))
+		accessors := r1.W == nil || r1.W.Accessors
+		term := fmt.Sprintf("(mk_wcase %s %s %s %s %s %s %s %s %s %s %s)", as.coq(), st.coq(), coqList(ms), lim, bp.coq(), gor,
+			coqBool(r1.Intact && r2.Intact), coqBool(r1.Shared || r2.Shared), coqBool(r1.key() == r2.key()), coqBool(splitAgree),
+			coqBool(accessors))
 		o.count("outcome:" + r1.Outcome)
 		nstrides := 0
 		if r1.W != nil {
